@@ -130,17 +130,27 @@ structure Sys where
   ab : List Msg := []       -- sent by A, not yet delivered to B's Dilator (FIFO)
   ba : List Msg := []
   links : List (Option Link) := []
+  /-- reachability of the network, fixed for the whole run: can a connection DIALLED by A (by B) get
+      through to the peer's listener?  (NAT / firewall / `no_listen` on the other side.)  The
+      property's proviso needs at least one direction. -/
+  ra : Bool := true
+  rb : Bool := true
   deriving DecidableEq, Repr, Inhabited
 
 instance : Hashable Ordering where
   hash o := match o with | .lt => 1 | .eq => 2 | .gt => 3
 
 instance : Hashable Sys where
-  hash s := mixHash (hash s.cmp) (mixHash (hash s.a) (mixHash (hash s.b) (mixHash (hash s.ab) (mixHash (hash s.ba) (hash s.links)))))
+  hash s := mixHash (hash s.cmp) (mixHash (hash s.a) (mixHash (hash s.b) (mixHash (hash s.ab) (mixHash (hash s.ba) (mixHash (hash s.links) (hash (s.ra, s.rb)))))))
 
 def Sys.side (s : Sys) : SideId → Side
   | .A => s.a
   | .B => s.b
+
+/-- do connections dialled by `x` get through? -/
+def Sys.reach (s : Sys) : SideId → Bool
+  | .A => s.ra
+  | .B => s.rb
 
 def Sys.setSide (s : Sys) (x : SideId) (sd : Side) : Sys :=
   match x with
@@ -445,14 +455,17 @@ def bothOpen (k : Link) : Bool := k.a.status = .open_ && k.b.status = .open_
 def freshHints (ms : List Msg) : Nat := (ms.filter (· == .hints true)).length
 
 /-- candidate opportunities of the newest generation other than link `l`: healthy links between the
-    two current connectors, scheduled connections to a current listener, fresh hints on their way -/
+    two current connectors, scheduled connections to a current listener and fresh hints on their way
+    (hints count from the moment they are SENT: an implementation that discards hints it was sent in
+    time loses candidates by itself) — the last two only for a side whose dialling gets through -/
 def otherCandidates (s : Sys) (l : Nat) : Nat :=
   let rec cnt : Nat → List (Option Link) → Nat
     | _, [] => 0
     | i, none :: t => cnt (i + 1) t
     | i, some k :: t => (if i ≠ l ∧ bothOpen k ∧ k.a.owner = none ∧ k.b.owner = none then 1 else 0) + cnt (i + 1) t
-  cnt 0 s.links + (s.a.att.filter id).length + (s.b.att.filter id).length
-    + freshHints s.ab + freshHints s.ba + freshHints s.a.pend + freshHints s.b.pend
+  cnt 0 s.links
+    + (if s.ra then (s.a.att.filter id).length + freshHints s.ba + freshHints s.a.pend else 0)
+    + (if s.rb then (s.b.att.filter id).length + freshHints s.ab + freshHints s.b.pend else 0)
 
 /-- may the network drop end `(x, l)` now?  Always, except for the LAST candidate of the newest
     generation (the property's proviso: "provided the network lets at least one connection attempt
@@ -522,7 +535,7 @@ def apply (s : Sys) : Event → Sys × Outcome
     | [] => (s, .skip)
     | tgt :: rest =>
       let s := s.modSide x (fun sd => { sd with att := rest })
-      if tgt && (s.side x.other).lst then
+      if tgt && (s.side x.other).lst && s.reach x then
         ({ s with links := placeLink s.links { dialer := x } }, .ok)
       else (s, .ok)                                   -- ConnectionRefusedError, trapped
   | .turn1 x =>
@@ -589,7 +602,7 @@ def enabledK (s : Sys) (e : Event) : Bool :=
    | .connect x =>
      -- a connection that would succeed needs a free slot among the K
      (match (s.side x).att with
-      | tgt :: _ => !(tgt && (s.side x.other).lst) || firstFree s.links < K
+      | tgt :: _ => !(tgt && (s.side x.other).lst && s.reach x) || firstFree s.links < K
       | [] => false)
    | .hs l | .kcmf l | .kcml l | .lose _ l => l < K
    | _ => true)
@@ -599,7 +612,11 @@ def allEvents : List Event :=
    .connect .A, .connect .B, .turn1 .A, .turn1 .B, .sigrec .A, .sigrec .B] ++
   (List.range K).flatMap (fun l => [.hs l, .kcmf l, .kcml l, .lose .A l, .lose .B l])
 
-def inits : List Sys := [{ cmp := .gt }, { cmp := .lt }]
+/-- both orders of the side strings × every network in which at least one direction of dialling works -/
+def inits : List Sys :=
+  [{ cmp := .gt }, { cmp := .lt },
+   { cmp := .gt, rb := false }, { cmp := .lt, rb := false },
+   { cmp := .gt, ra := false }, { cmp := .lt, ra := false }]
 
 def succs (s : Sys) : List Sys :=
   allEvents.filterMap (fun e => if enabledK s e then some (step s e).1 else none)
@@ -870,6 +887,10 @@ def stepLine (c : Conc) (line : String) : Conc × String :=
   | ["init", ha, hb] =>
     match strOfHex? ha, strOfHex? hb with
     | some a, some b => fin { sys := { cmp := cmpSides a b } } "ok"
+    | _, _ => (c, "bad-op")
+  | ["init", ha, hb, ra, rb] =>
+    match strOfHex? ha, strOfHex? hb with
+    | some a, some b => fin { sys := { cmp := cmpSides a b, ra := ra == "1", rb := rb == "1" } } "ok"
     | _, _ => (c, "bad-op")
   | ["arrive", x, n] =>
     match side? x, n.toNat? with
